@@ -118,6 +118,19 @@ func c17Keys() []c17Key {
 		ks = append(ks, c17Key{Name: "cose-key-pointer-" + ck.name, Pub: kk, Family: "cose-key:" + ck.fam})
 		ks = append(ks, c17Key{Name: "cose-key-value-" + ck.name, Pub: *kk, Family: "cose-key:" + ck.fam})
 	}
+	// values of the right Go type that are not keys: wrong-length Ed25519 keys, nil pointers, structures
+	// without modulus / curve / coordinates. Not members of any family: refused (not accepted, no panic)
+	ks = append(ks,
+		c17Key{Name: "malformed-ed25519-public-3-bytes", Pub: ed25519.PublicKey{1, 2, 3}, Family: "none"},
+		c17Key{Name: "malformed-ed25519-public-empty", Pub: ed25519.PublicKey{}, Family: "none"},
+		c17Key{Name: "malformed-ed25519-public-33-bytes", Pub: ed25519.PublicKey(make([]byte, 33)), Family: "none"},
+		c17Key{Name: "malformed-ed25519-private-3-bytes", Pub: ed25519.PublicKey{1, 2, 3}, Priv: ed25519.PrivateKey{1, 2, 3}, Family: "none"},
+		c17Key{Name: "malformed-ecdsa-nil-pointer", Pub: (*ecdsa.PublicKey)(nil), Family: "none"},
+		c17Key{Name: "malformed-ecdsa-no-coordinates", Pub: &ecdsa.PublicKey{Curve: elliptic.P256()}, Family: "none-verifier"},
+		c17Key{Name: "malformed-ecdsa-no-curve", Pub: &ecdsa.PublicKey{X: big.NewInt(1), Y: big.NewInt(1)}, Family: "none"},
+		c17Key{Name: "malformed-rsa-nil-pointer", Pub: (*rsa.PublicKey)(nil), Family: "none"},
+		c17Key{Name: "malformed-rsa-no-modulus", Pub: &rsa.PublicKey{E: 65537}, Family: "none"},
+	)
 	// foreign key types
 	edPub := ed.Public().(ed25519.PublicKey)
 	xk, _ := ecdh.X25519().NewPrivateKey(make([]byte, 32))
@@ -209,6 +222,15 @@ func checkC17Cell(c c17Cell) error {
 		}
 		stats.Class("created/from-cose-key-object")
 		return nil
+	}
+	if k.Family == "none-verifier" {
+		// a public key structure that names its curve but carries no point: what an opaque signer reports is
+		// enough to size signatures, a verifier cannot be built from it
+		if c.Side == "signer" {
+			stats.Class("skipped/coordinate-less-key-on-the-signer-side")
+			return nil
+		}
+		k = &c17Key{Name: k.Name, Pub: k.Pub, Family: "none"}
 	}
 	want := fam != "" && fam == k.Family
 	why := "family"
@@ -462,11 +484,18 @@ func TestC17_Sequences(t *testing.T) {
 	begin(t, "C17", "sequences")
 	var ec, rs []string
 	for _, k := range c17Keys() {
-		switch k.Pub.(type) {
+		if k.Family == "none-verifier" {
+			continue
+		}
+		switch p := k.Pub.(type) {
 		case *ecdsa.PublicKey:
-			ec = append(ec, k.Name)
+			if p != nil {
+				ec = append(ec, k.Name)
+			}
 		case *rsa.PublicKey:
-			rs = append(rs, k.Name)
+			if p != nil {
+				rs = append(rs, k.Name)
+			}
 		}
 	}
 	n := 0
